@@ -32,6 +32,48 @@ pub(crate) trait Tbl {
     fn dup(&self) -> Box<dyn Tbl>;
 }
 
+/// Where the next tables are placed: the GDT only guarantees 8-byte alignment, malloc gives 16, so
+/// half of the runs put the table at an address that is 8 mod 16 (set from the run's config).
+pub(crate) static SHIFT8: core::sync::atomic::AtomicBool = core::sync::atomic::AtomicBool::new(false);
+
+#[repr(C, align(16))]
+struct Shifted<T> {
+    pad: u64,
+    t: T,
+}
+
+impl<T: Tbl + 'static> Tbl for Shifted<T> {
+    fn append(&mut self, d: Descriptor) -> SegmentSelector {
+        self.t.append(d)
+    }
+    fn raw_entries(&self) -> Vec<u64> {
+        self.t.raw_entries()
+    }
+    fn entries_addr(&self) -> u64 {
+        self.t.entries_addr()
+    }
+    fn limit(&self) -> u16 {
+        self.t.limit()
+    }
+    fn load(&self, as_static: bool) {
+        self.t.load(as_static)
+    }
+    fn span(&self) -> (u64, usize) {
+        self.t.span()
+    }
+    fn dup(&self) -> Box<dyn Tbl> {
+        self.t.dup()
+    }
+}
+
+fn place<T: Tbl + 'static>(t: T) -> Box<dyn Tbl> {
+    if SHIFT8.load(core::sync::atomic::Ordering::Relaxed) {
+        Box::new(Shifted { pad: 0, t })
+    } else {
+        Box::new(t)
+    }
+}
+
 macro_rules! monomorphise {
     ($($n:literal),*) => {
         $(impl Tbl for GlobalDescriptorTable<$n> {
@@ -60,15 +102,15 @@ macro_rules! monomorphise {
                 (self as *const Self as u64, core::mem::size_of::<Self>())
             }
             fn dup(&self) -> Box<dyn Tbl> {
-                Box::new(self.clone())
+                place(self.clone())
             }
         })*
         /// `empty()` or `from_raw_entries(raw)`; panics of the crate propagate (call inside sut_call)
         pub(crate) fn make(max: usize, raw: Option<&[u64]>) -> Box<dyn Tbl> {
             match max {
                 $($n => match raw {
-                    Some(s) => Box::new(GlobalDescriptorTable::<$n>::from_raw_entries(s)) as Box<dyn Tbl>,
-                    None => Box::new(GlobalDescriptorTable::<$n>::empty()),
+                    Some(s) => place(GlobalDescriptorTable::<$n>::from_raw_entries(s)),
+                    None => place(GlobalDescriptorTable::<$n>::empty()),
                 },)*
                 _ => unreachable!(),
             }
@@ -648,7 +690,7 @@ pub fn gen(seed: u64) -> Replay {
     if rng.chance(70) {
         g.load(&mut rng);
     }
-    Replay { property: "C14".into(), simulator: "cpusim".into(), seed, config: json!({"max": max, "ctor": ctor}), steps: g.steps, violation: None, minimised_from_steps: None }
+    Replay { property: "C14".into(), simulator: "cpusim".into(), seed, config: json!({"max": max, "ctor": ctor, "shift8": (seed >> 7) & 1 == 1}), steps: g.steps, violation: None, minimised_from_steps: None }
 }
 
 /// one `append`, checked against the model; Ok(true) = appended, Ok(false) = rejected as expected
@@ -706,9 +748,10 @@ pub fn run(rp: &Replay, st: &mut Stats) -> Option<Violation> {
         std::process::exit(2);
     }
     let ctor = rp.config["ctor"].as_str().unwrap_or("empty").to_string();
+    SHIFT8.store(rp.config["shift8"].as_bool().unwrap_or(false), core::sync::atomic::Ordering::Relaxed);
     let made = sut_call("new", || match (max, ctor.as_str()) {
-        (8, "new") => Box::new(GlobalDescriptorTable::new()) as Box<dyn Tbl>,
-        (8, "default") => Box::new(<GlobalDescriptorTable as Default>::default()) as Box<dyn Tbl>,
+        (8, "new") => place(GlobalDescriptorTable::new()),
+        (8, "default") => place(<GlobalDescriptorTable as Default>::default()),
         _ => make(max, None),
     });
     st.calls += 1;
